@@ -116,6 +116,31 @@ def logPayload (labels : JBytes) (events : List JBytes) : JBytes :=
   bs "[{\"common\": {\"attributes\": " ++ labels ++ bs "},\"logs\": " ++ bs "[" ++
   joinWith (bs ",") (events.filter (fun e => e.length ≥ 4)) ++ bs "]" ++ bs "}]"
 
+/-- `SetLogForwardingLabels`: one label with an empty type or value discards the whole list -/
+def logLabelsKept (ls : List (JBytes × JBytes)) : List (JBytes × JBytes) :=
+  if ls.any (fun l => l.1.isEmpty || l.2.isEmpty) then [] else ls
+
+def bytesLt : JBytes → JBytes → Bool
+  | [], [] => false
+  | [], _ :: _ => true
+  | _ :: _, [] => false
+  | a :: as, b :: bs' => a < b || (a == b && bytesLt as bs')
+
+/-- insertion into the key-sorted association list that `json.Marshal` of a Go map produces: a later label of the same
+type replaces the earlier one -/
+def labelInsert (k v : JBytes) : List (JBytes × JBytes) → List (JBytes × JBytes)
+  | [] => [(k, v)]
+  | (k', v') :: rest =>
+    if k == k' then (k, v) :: rest
+    else if bytesLt k k' then (k, v) :: (k', v') :: rest
+    else (k', v') :: labelInsert k v rest
+
+/-- the `"attributes"` object of `LogEvents.CollectorJSON`: a map from `tags.<type>` to the value, marshalled with sorted
+keys; `enc` is the string encoder of `encoding/json` -/
+def logLabelsObject (enc : JBytes → JBytes) (ls : List (JBytes × JBytes)) : JBytes :=
+  let m := ((logLabelsKept ls).filter (fun l => !l.1.isEmpty && !l.2.isEmpty)).foldl (fun acc l => labelInsert (bs "tags." ++ l.1) l.2 acc) []
+  bs "{" ++ joinWith (bs ",") (m.map (fun kv => enc kv.1 ++ bs ":" ++ enc kv.2)) ++ bs "}"
+
 /-- `PhpPackages.CollectorJSON` for a non-empty package list -/
 def packagesPayload (data : JBytes) : JBytes := bs "[" ++ bs "\"Jars\"" ++ bs "," ++ data ++ bs "]"
 
